@@ -95,14 +95,15 @@ spec fn chain_hashes(c: Seq<CachedBlock>) -> Seq<BlockHash> { Seq::new(c.len(), 
 spec fn count_at(rows: Seq<Seq<(BlockHash, u32)>>, chain: Seq<CachedBlock>, i: int) -> int {
     stability_count_spec(rows[i], chain[i].block_hash)
 }
-// number of leading blocks of the chain that (together with all their ancestors) have stability count >= c
+// number of leading blocks of the chain that (together with all their ancestors) have stability count >= c;
+// without a confirmation filter (c = 0) the whole chain
 spec fn cut_len(rows: Seq<Seq<(BlockHash, u32)>>, chain: Seq<CachedBlock>, c: int, n: int) -> int
     decreases n,
 {
     if n <= 0 || n > chain.len() { 0 }
     else {
         let k = cut_len(rows, chain, c, n - 1);
-        if k == n - 1 && count_at(rows, chain, n - 1) >= c { n } else { k }
+        if k == n - 1 && (c <= 0 || count_at(rows, chain, n - 1) >= c) { n } else { k }
     }
 }
 
@@ -121,7 +122,7 @@ spec fn cut_len(rows: Seq<Seq<(BlockHash, u32)>>, chain: Seq<CachedBlock>, c: in
 //@end
 
 proof fn lemma_cut_stuck(rows: Seq<Seq<(BlockHash, u32)>>, chain: Seq<CachedBlock>, c: int, i: int, n: int)
-    requires 0 <= i < n <= chain.len(), cut_len(rows, chain, c, i) == i, count_at(rows, chain, i) < c,
+    requires 0 <= i < n <= chain.len(), cut_len(rows, chain, c, i) == i, c > 0, count_at(rows, chain, i) < c,
     ensures cut_len(rows, chain, c, n) == i,
     decreases n,
 {
@@ -169,7 +170,7 @@ proof fn lemma_cut_stuck(rows: Seq<Seq<(BlockHash, u32)>>, chain: Seq<CachedBloc
 //@|     rows_small(vp_rows),
 //@| ensures
 //@|     walk_result(state, vp_chain_view, vp_c, address_utxos.applied@, *tip_block_hash, tip_block_height),
-//@ before "if get_stability_count(&blocks_with_depths_by_heights[i], block.block_hash())"
+//@ before "if min_confirmations > 0"
 //@| proof {
 //@|     let ghost row = blocks_with_depths_by_heights@[i as int]@;
 //@|     assert(row_view(row) =~= vp_rows[i as int]);
@@ -182,7 +183,7 @@ proof fn lemma_cut_stuck(rows: Seq<Seq<(BlockHash, u32)>>, chain: Seq<CachedBloc
 //@ before "tip_block_hash = block.block_hash();"
 //@| proof {
 //@|     assert(row_view(blocks_with_depths_by_heights@[i as int]@) =~= vp_rows[i as int]);
-//@|     assert(count_at(vp_rows, vp_chain_view, i as int) >= vp_c);
+//@|     assert(vp_c <= 0 || count_at(vp_rows, vp_chain_view, i as int) >= vp_c);
 //@| }
 //@ before "break;"
 //@| proof { lemma_cut_stuck(vp_rows, vp_chain_view, vp_c, i as int, vp_chain_view.len() as int); }
@@ -227,33 +228,161 @@ proof fn lemma_cut_fork_free(rows: Seq<Seq<(BlockHash, u32)>>, chain: Seq<Cached
 
 //@lemma fn=lemma_unfiltered_walk_serves_the_tip props=C02
 // C02 "unfiltered bitcoin_get_utxos is answered with respect to that same tip": with no confirmation filter (c = 0) the
-// walk must apply the WHOLE served chain. This does not follow from the code: the stability count of a best-chain block
-// is NEGATIVE when a lighter but longer fork competes at its height, and the walk stops there even for c = 0.
-proof fn lemma_unfiltered_walk_serves_the_tip(rows: Seq<Seq<(BlockHash, u32)>>, chain: Seq<CachedBlock>)
-    requires rows.len() >= chain.len(), rows_small(rows),
-    ensures cut_len(rows, chain, 0, chain.len() as int) == chain.len(),
+// walk applies the WHOLE served chain, whatever the stability counts are (they are negative where a lighter but longer
+// fork competes).
+proof fn lemma_unfiltered_walk_serves_the_tip(rows: Seq<Seq<(BlockHash, u32)>>, chain: Seq<CachedBlock>, n: int)
+    requires 0 <= n <= chain.len(),
+    ensures cut_len(rows, chain, 0, n) == n,
+    decreases n,
 {
+    if n > 0 { lemma_unfiltered_walk_serves_the_tip(rows, chain, n - 1); }
 }
 
-// ---- C05: the walk of get_balance (get_balance.rs:53-70) ----------------------------------------------------------------
-// number of leading blocks counted by get_balance: those with (tip height - block height + 1) >= c confirmations
-spec fn balance_cut_len(len: int, c: int) -> int {
-    if c <= 0 { len } else if c > len { 0 } else { len - c + 1 }
+// ---- C05: the walk of get_balance (get_balance.rs) -------------------------------------------------------------------
+// [trusted:stand-in] Address / OutPoint / TxOut as far as the balance walk reads them
+struct Address { id: u64 }
+struct OutPoint { id: u64 }
+struct TxOut { value: u64 }
+// per-block, per-address outpoints of unstable blocks and the cached tx outs (OutPointsCache, entry-API maps): uninterpreted
+uninterp spec fn added_spec(ub: &UnstableBlocks, h: BlockHash, a: Address) -> Seq<OutPoint>;
+uninterp spec fn removed_spec(ub: &UnstableBlocks, h: BlockHash, a: Address) -> Seq<OutPoint>;
+uninterp spec fn value_spec(ub: &UnstableBlocks, o: OutPoint) -> u64;
+impl UnstableBlocks {
+    // [trusted:assumed-contract] get_added_outpoints / get_removed_outpoints / get_tx_out (unstable_blocks.rs:139-153): the cache
+    // returns the block's outpoints for the address, and every such outpoint has a cached tx out (C20 territory, not verified)
+    #[verifier::external_body]
+    fn get_added_outpoints(&self, block_hash: &BlockHash, address: &Address) -> (r: &[OutPoint])
+        ensures r@ == added_spec(self, *block_hash, *address),
+    { unimplemented!() }
+    #[verifier::external_body]
+    fn get_removed_outpoints(&self, block_hash: &BlockHash, address: &Address) -> (r: &[OutPoint])
+        ensures r@ == removed_spec(self, *block_hash, *address),
+    { unimplemented!() }
+    #[verifier::external_body]
+    fn get_tx_out(&self, outpoint: &OutPoint) -> (r: Option<(&TxOut, Height)>)
+        ensures r.is_some(), r.unwrap().0.value == value_spec(self, *outpoint),
+    { unimplemented!() }
 }
-//@lemma fn=lemma_walks_agree_fork_free props=C05
-proof fn lemma_walks_agree_fork_free(rows: Seq<Seq<(BlockHash, u32)>>, chain: Seq<CachedBlock>, c: int)
-    requires
-        rows.len() == chain.len(), 1 <= chain.len() < 0x8000_0000, 0 <= c <= chain.len(),
-        forall|i: int| 0 <= i < chain.len() ==> (#[trigger] rows[i]) =~= seq![(chain[i].block_hash, (chain.len() - i) as u32)],
-    ensures cut_len(rows, chain, c, chain.len() as int) == balance_cut_len(chain.len() as int, c),
+spec fn sum_values(ub: &UnstableBlocks, s: Seq<OutPoint>, n: int) -> int
+    decreases n,
 {
-    lemma_cut_fork_free(rows, chain, c, chain.len() as int);
+    if n <= 0 || n > s.len() { 0 } else { sum_values(ub, s, n - 1) + value_spec(ub, s[n - 1]) }
 }
-//@lemma fn=lemma_walks_agree props=C05
-// C05 needs both endpoints to cut the served chain at the same block for EVERY tree. get_utxos cuts by stability count,
-// get_balance by height confirmations; on forked trees the two differ (a competing fork lowers the stability count only).
-proof fn lemma_walks_agree(rows: Seq<Seq<(BlockHash, u32)>>, chain: Seq<CachedBlock>, c: int)
-    requires rows.len() >= chain.len(), 1 <= chain.len() < 0x8000_0000, 0 <= c <= chain.len(), rows_small(rows),
-    ensures cut_len(rows, chain, c, chain.len() as int) == balance_cut_len(chain.len() as int, c),
+// balance after the first k blocks of the chain have been applied to the stable balance b0
+spec fn balance_after(ub: &UnstableBlocks, a: Address, chain: Seq<CachedBlock>, b0: int, k: int) -> int
+    decreases k,
 {
+    if k <= 0 || k > chain.len() { b0 } else {
+        let h = chain[k - 1].block_hash;
+        balance_after(ub, a, chain, b0, k - 1)
+            + sum_values(ub, added_spec(ub, h, a), added_spec(ub, h, a).len() as int)
+            - sum_values(ub, removed_spec(ub, h, a), removed_spec(ub, h, a).len() as int)
+    }
 }
+// running balance inside block k: after ja of its added outpoints / after all added and jr of its removed outpoints
+spec fn bal_mid_add(ub: &UnstableBlocks, a: Address, chain: Seq<CachedBlock>, b0: int, k: int, ja: int) -> int {
+    balance_after(ub, a, chain, b0, k) + sum_values(ub, added_spec(ub, chain[k].block_hash, a), ja)
+}
+spec fn bal_mid_rem(ub: &UnstableBlocks, a: Address, chain: Seq<CachedBlock>, b0: int, k: int, jr: int) -> int {
+    balance_after(ub, a, chain, b0, k)
+        + sum_values(ub, added_spec(ub, chain[k].block_hash, a), added_spec(ub, chain[k].block_hash, a).len() as int)
+        - sum_values(ub, removed_spec(ub, chain[k].block_hash, a), jr)
+}
+// [assumption, stated] running balances stay within u64 (sum of all satoshi <= 21e14) and never go negative
+// (an address never spends more than it holds on its own chain)
+spec fn balances_in_range(ub: &UnstableBlocks, a: Address, chain: Seq<CachedBlock>, b0: int) -> bool {
+    &&& forall|k: int, ja: int| 0 <= k < chain.len() && 0 <= ja <= added_spec(ub, chain[k].block_hash, a).len()
+            ==> 0 <= #[trigger] bal_mid_add(ub, a, chain, b0, k, ja) <= u64::MAX
+    &&& forall|k: int, jr: int| 0 <= k < chain.len() && 0 <= jr <= removed_spec(ub, chain[k].block_hash, a).len()
+            ==> 0 <= #[trigger] bal_mid_rem(ub, a, chain, b0, k, jr) <= u64::MAX
+}
+
+//@slice file=canister/src/api/get_balance.rs item="fn get_balance_private" from="let blocks_with_depths_by_heights =" to="for (i, block) in main_chain.into_chain().iter().enumerate() {" to_block=1 props=C05
+//@ rewrite R4 "for \(i, block\) in main_chain\.into_chain\(\)\.iter\(\)\.enumerate\(\) \{" => "let vp_chain = main_chain.into_chain(); let mut vp_n: usize = 0; for block in it: vp_chain.iter() { let i = vp_n; vp_n = vp_n + 1;"
+//@ rewrite R4 "for outpoint in state\s*\.unstable_blocks\s*\.get_added_outpoints\(block\.block_hash\(\), &address\)\s*\{" => "for outpoint in ita: state.unstable_blocks.get_added_outpoints(block.block_hash(), &address) {"
+//@ rewrite R4 "for outpoint in state\s*\.unstable_blocks\s*\.get_removed_outpoints\(block\.block_hash\(\), &address\)\s*\{" => "for outpoint in itr: state.unstable_blocks.get_removed_outpoints(block.block_hash(), &address) {"
+//@ head
+//@| fn get_balance_walk(state: &State, main_chain: BlockChain<CachedBlock>, min_confirmations: u32, address: Address, balance0: u64) -> (r: u64)
+//@|     requires
+//@|         state_ranges(state),
+//@|         1 <= main_chain@.len() <= state.unstable_blocks.tree.sdepth(),
+//@|         min_confirmations <= main_chain@.len(),
+//@|         main_chain@.len() < 0x8000_0000,
+//@|         rows_small(rows_spec(&state.unstable_blocks.tree)),
+//@|         balances_in_range(&state.unstable_blocks, address, main_chain@, balance0 as int),
+//@|     ensures
+//@|         // the balance is the stable balance plus the per-block deltas of exactly the blocks get_utxos applies for the
+//@|         // same request: the first cut_len blocks of the served chain
+//@|         r == balance_after(&state.unstable_blocks, address, main_chain@, balance0 as int,
+//@|                            cut_len(rows_spec(&state.unstable_blocks.tree), main_chain@, min_confirmations as int, main_chain@.len() as int)),
+//@ before "let blocks_with_depths_by_heights ="
+//@| let mut balance = balance0;
+//@| let ghost vp_chain_view = main_chain@;
+//@| let ghost vp_rows = rows_spec(&state.unstable_blocks.tree);
+//@| let ghost vp_c = min_confirmations as int;
+//@| let ghost vp_ub = &state.unstable_blocks;
+//@| let ghost vp_b0 = balance0 as int;
+//@ loop 1
+//@| invariant_except_break
+//@|     vp_n == it.index@,
+//@|     cut_len(vp_rows, vp_chain_view, vp_c, it.index@) == it.index@,
+//@|     balance == balance_after(vp_ub, address, vp_chain_view, vp_b0, it.index@),
+//@| invariant
+//@|     state_ranges(state),
+//@|     it.index@ <= vp_chain@.len(),
+//@|     deref_seq(vp_chain@) =~= vp_chain_view,
+//@|     vp_rows == rows_spec(&state.unstable_blocks.tree),
+//@|     vp_ub == &state.unstable_blocks,
+//@|     vp_c == min_confirmations as int,
+//@|     vp_c <= vp_chain_view.len(),
+//@|     vp_chain_view.len() < 0x8000_0000,
+//@|     1 <= vp_chain_view.len() <= state.unstable_blocks.tree.sdepth(),
+//@|     blocks_with_depths_by_heights@.len() == state.unstable_blocks.tree.sdepth(),
+//@|     vp_rows.len() == blocks_with_depths_by_heights@.len(),
+//@|     forall|i: int| 0 <= i < blocks_with_depths_by_heights@.len() ==> row_view((#[trigger] blocks_with_depths_by_heights@[i])@) =~= vp_rows[i],
+//@|     rows_small(vp_rows),
+//@|     balances_in_range(vp_ub, address, vp_chain_view, vp_b0),
+//@| ensures
+//@|     balance == balance_after(vp_ub, address, vp_chain_view, vp_b0, cut_len(vp_rows, vp_chain_view, vp_c, vp_chain_view.len() as int)),
+//@ loop 2
+//@| invariant
+//@|     0 <= i < vp_chain_view.len(),
+//@|     block.block_hash == vp_chain_view[i as int].block_hash,
+//@|     balances_in_range(vp_ub, address, vp_chain_view, vp_b0),
+//@|     vp_ub == &state.unstable_blocks,
+//@|     balance == bal_mid_add(vp_ub, address, vp_chain_view, vp_b0, i as int, ita.index@),
+//@ loop 3
+//@| invariant
+//@|     0 <= i < vp_chain_view.len(),
+//@|     block.block_hash == vp_chain_view[i as int].block_hash,
+//@|     balances_in_range(vp_ub, address, vp_chain_view, vp_b0),
+//@|     vp_ub == &state.unstable_blocks,
+//@|     balance == bal_mid_rem(vp_ub, address, vp_chain_view, vp_b0, i as int, itr.index@),
+//@ before "if min_confirmations > 0"
+//@| proof {
+//@|     let ghost row = blocks_with_depths_by_heights@[i as int]@;
+//@|     assert(row_view(row) =~= vp_rows[i as int]);
+//@|     assert forall|j: int| 0 <= j < row.len() implies (#[trigger] row[j]).1 < 0x8000_0000 by {
+//@|         assert(row_view(row)[j] == vp_rows[i as int][j]);
+//@|     }
+//@|     assert(*vp_chain@[i as int] == vp_chain_view[i as int]);
+//@| }
+//@ before "break;"
+//@| proof { lemma_cut_stuck(vp_rows, vp_chain_view, vp_c, i as int, vp_chain_view.len() as int); }
+//@ before "balance += txout.value;"
+//@| proof {
+//@|     let ghost sq = added_spec(vp_ub, vp_chain_view[i as int].block_hash, address);
+//@|     assert(*outpoint == sq[ita.index@]);
+//@|     assert(sum_values(vp_ub, sq, ita.index@ + 1) == sum_values(vp_ub, sq, ita.index@) + value_spec(vp_ub, sq[ita.index@]));
+//@|     assert(0 <= bal_mid_add(vp_ub, address, vp_chain_view, vp_b0, i as int, ita.index@ + 1) <= u64::MAX);
+//@| }
+//@ before "balance -= txout.value;"
+//@| proof {
+//@|     let ghost sq = removed_spec(vp_ub, vp_chain_view[i as int].block_hash, address);
+//@|     assert(*outpoint == sq[itr.index@]);
+//@|     assert(sum_values(vp_ub, sq, itr.index@ + 1) == sum_values(vp_ub, sq, itr.index@) + value_spec(vp_ub, sq[itr.index@]));
+//@|     assert(0 <= bal_mid_rem(vp_ub, address, vp_chain_view, vp_b0, i as int, itr.index@ + 1) <= u64::MAX);
+//@| }
+//@ tail
+//@| balance
+//@end
